@@ -12,6 +12,7 @@ from common import show_list, frac_str
 
 LEVEL = "proof"
 LEAN_PROPS = ["FastTicc.Props.C06", "FastTicc.Props.C01", "FastTicc.Props.C07mask", "FastTicc.Props.Final"]
+LEAN_TRANSLATED = {"FastTicc.Props.TrLists": ["_compute_log_likelihood_by_cluster"]}
 LEAN_HELPERS = ["FastTicc.Proofs.Result", "FastTicc.Proofs.ResultCost", "FastTicc.Proofs.Final"]
 RULE = ("(a) synthetic (labels, per-point log-likelihood) inputs incl. empty clusters and -1 markers through the real "
         "per-cluster collection; (b) complete runs of both front ends (scalar and per-pair beta, converged or stopped "
@@ -128,7 +129,7 @@ def run(ctx):
     # (-(x_i - mu_k)^2/2 - log(2 pi)/2) whatever way the collection evaluates it
     import math
     from fast_ticc.containers import arguments as _args, model_state as _ms
-    lines, syn_meta = [], []
+    lines, syn_meta, syn_want = [], [], []
     for c in syn:
         K = c["K"]
         labels = [l if 0 <= l < K else 0 for l in c["labels"]]      # the state's labelling never carries the -1 marker
@@ -150,7 +151,15 @@ def run(ctx):
         got = main_loop._compute_log_likelihood_by_cluster(data, st)
         lines.append(f"clusterlists {K} {show_list(labels)} {show_list(want, frac_str)}")
         syn_meta.append((c, K, labels, got, const))
+        syn_want.append(want)
     outs = ctx.driver.run(lines)
+    # the per-cluster collection TRANSLATED from the source (Generated/Kernels.lean; theorem compute_log_likelihood_by_cluster_eq)
+    # on the same labels and exact per-point values, against what the implementation returned
+    gen_cases = []
+    for (c, K, labels, got, const), want_ll in zip(syn_meta, syn_want):
+        exp = ";".join((",".join(frac_str(Fraction(float(v)) - Fraction(const)) for v in l) if len(l) else "-") for l in got) if len(got) else "-"
+        gen_cases.append((f"{K} {show_list(labels)} {show_list(want_ll, frac_str)}", "ok " + exp, c))
+    ctx.gen_compare("_compute_log_likelihood_by_cluster", gen_cases, tol=1e-9)
     for (c, K, labels, got, const), out in zip(syn_meta, outs):
         repaired, pinned = out.split(" ")
         model_lists = [[float(Fraction(x)) + const for x in common.parse_list(l, str)] for l in (repaired.split(";") if repaired != "-" else [])]
